@@ -9,17 +9,7 @@ def region(name):
     return deco
 
 
-def _n_points(pats):
-    return sum(len(occ) for pat in pats for occ in pat)
-
-
 @region("pattern_standard_nref_gt_nest")
 def pattern_standard_nref_gt_nest(inp):
     """complement of the hypothesis of C01.Pattern.standard_precision_partial: more reference than estimated patterns"""
     return len(inp["ref"]) > len(inp["est"])
-
-
-@region("pattern_empty_side")
-def pattern_empty_side(inp):
-    """one of the two pattern lists contains no point at all (the early `return 0., 0., 0.` of the first_n functions)"""
-    return _n_points(inp["ref"]) == 0 or _n_points(inp["est"]) == 0
